@@ -293,6 +293,11 @@ def body(chk, db, cfgname):
             ctx = Ctx(f, db)
             site = "%s/%d" % (qn, npar)
             acc = [j for j, n in f.walk(f.body) if n["k"] == "bin" and n["op"] == "+="]
+            rep = [j for j, n in f.walk(f.body) if n["k"] == "call" and (n.get("cname") or "").endswith("StatesClassification::getFockState") and len(n["args"]) == 2
+                   and ctx.key(n["args"][1])[0] == "lit"]
+            if rep:
+                r3.bad(site, f.loc(rep[0]), "one Fock state of the block (%s) stands for all of them: the average is right only if every state of a block has the same occupation, which depends on the partition (false with symmetries ignored or without N among the integrals of motion)" % f.s(rep[0])[:60], cfgname)
+                continue
             if len(acc) != 1:
                 unk(f, "expected one accumulation statement n += ..., found %d" % len(acc))
             A = acc[0]
